@@ -10,14 +10,17 @@ META = {
 
 
 def run(run, model):
-    n = effects.immutable_values(run, model)
+    run.do(effects.immutable_values, model)
     run.do(effects.no_other_state, model)
     run.do(effects.ctxvar_only, model)
     run.do(effects.no_memo, model, "C12.no-memo")
+    run.do(effects.frozen_after_init, model, "C12.frozen-after-init")
     # positive control for the zero-count rule: the recogniser must see the marker operations
-    regs = marker.regions(model)
-    ops = sum(1 for r in regs.values() for k, _, _ in r.event_states if k in ("ACQUIRE", "RESTORE", "REMOVE"))
-    run.extra["marker_operations_seen"] = ops
+    def positive_control(run, model):
+        regs = marker.regions(model)
+        run.extra["marker_operations_seen"] = sum(1 for r in regs.values() for k, _, _ in r.event_states if k in ("ACQUIRE", "RESTORE", "REMOVE"))
+
+    run.do(positive_control, model)
     run.minimum("C12.immutable-values", 6, "default + five functions using the context variable")
     run.minimum("C12.no-other-state", 20)
     run.minimum("C12.ctxvar-only", 5)
